@@ -242,7 +242,7 @@ func (rn *runner) bigOne(spec BigSpec, report bool) []failure {
 
 var tBig time.Duration
 
-func (rn *runner) bigPhase(seed uint64, tier string) {
+func (rn *runner) bigPhase(seed uint64, tier string) (report func()) {
 	specs := append([]BigSpec{}, bigSpecsQuick...)
 	if tier == "thorough" {
 		specs = append([]BigSpec{}, bigSpecsThorough...)
@@ -265,11 +265,13 @@ func (rn *runner) bigPhase(seed uint64, tier string) {
 		}(i)
 	}
 	wg.Wait()
-	for i, sp := range specs {
-		for _, fl := range results[i] {
-			rn.violateBig(sp, fl)
+	return func() {
+		for i, sp := range specs {
+			for _, fl := range results[i] {
+				rn.violateBig(sp, fl)
+			}
+			rn.note(fmt.Sprintf("big module %s layout, %d files x %d bytes: %d rounds of concurrent first requests took %.1fs (all big modules side by side)", sp.Layout, sp.NFiles, sp.FSize, sp.Rounds, took[i].Seconds()))
 		}
-		rn.note(fmt.Sprintf("big module %s layout, %d files x %d bytes: %d rounds of concurrent first requests took %.1fs (all big modules side by side)", sp.Layout, sp.NFiles, sp.FSize, sp.Rounds, took[i].Seconds()))
 	}
 }
 
